@@ -242,3 +242,59 @@ func VerifC01TagPackage() {
 	}
 	vAssert(!clash, "an operation package named after a tag shadows an import of the generated server builder")
 }
+
+func init() { vRegister("VerifC01AnonymousTypes", VerifC01AnonymousTypes) }
+
+// C01 (planning): the Go types planned for the models package - one per definition plus the
+// structs invented for anonymous nested objects - all have distinct names, and inventing them
+// leaves the user's own definitions untouched (they are what the server embeds, C10).
+func VerifC01AnonymousTypes() {
+	sw := vBaseSpec()
+	inner := vObj(map[string]spec.Schema{"why": *spec.StringProperty()})
+	var holder spec.Schema
+	shape := vChoice("shape", 3)
+	switch shape {
+	case 0: // nested anonymous object
+		holder = vObj(map[string]spec.Schema{"inner": inner})
+	case 1: // array of anonymous objects
+		holder = vObj(map[string]spec.Schema{"inner": *spec.ArrayProperty(&inner)})
+	default: // map of anonymous objects
+		holder = vObj(map[string]spec.Schema{"inner": *spec.MapProperty(&inner)})
+	}
+	other := []string{"Other", "ErrInner", "err inner", "ErrInnerItems0", "ErrInnerAnon", "err_inner"}[vChoice("otherName", 6)]
+	mine := vObj(map[string]spec.Schema{"count": *spec.Int64Property()}, "count")
+	sw.Definitions = spec.Definitions{"Err": holder, other: mine}
+	op := &spec.Operation{}
+	op.ID = "getIt"
+	op.Responses = vOKResponses()
+	vAddOp(sw, "GET", "/x", op)
+	app, err := vPlanApp(sw)
+	vCover("planned")
+	if err != nil {
+		return // refusing the spec is fine; silently generating clashing code is not
+	}
+	seen := map[string]bool{}
+	dup := false
+	for _, m := range app.Models {
+		if seen[m.GoType] {
+			dup = true
+		}
+		seen[m.GoType] = true
+		for _, e := range m.ExtraSchemas {
+			if seen[e.GoType] {
+				dup = true
+			}
+			seen[e.GoType] = true
+		}
+	}
+	kept := false
+	if d, ok := sw.Definitions[other]; ok {
+		_, kept = d.Properties["count"]
+	}
+	// known: only where the user's name IS the invented name (ErrInner, ErrInnerItems0, ErrInnerAnon); any other clash is reported
+	if vKnown("C01-P2", (dup || !kept) && strings.HasPrefix(pascalize(other), "ErrInner")) {
+		return
+	}
+	vAssert(!dup, "two Go types of the models package are planned under the same name (the generated package does not compile)")
+	vAssert(kept, "planning the models replaced a definition of the input spec by an invented one")
+}
